@@ -252,7 +252,7 @@ def check(ctx):
     bcls = repo.cls(BM, "BootstrapElectionModel")
     cf = ctx.fn(BM, "BootstrapElectionModel.compute_bootstrap_errors")
     cs = ctx.builder().summarize(cf, self_cls=bcls)
-    NT, NTe = ("sub", ("attr", R_, "shape"), ("const", 0)), ("sub", ("attr", N_, "shape"), ("const", 0))
+    NT, NTe = ir.nrows(R_), ir.nrows(N_)
     fz = _A("featurizer")
     ok8 = False
     detail = "bootstrap design slices not recognised"
